@@ -19,6 +19,9 @@ type searchLinker struct {
 	symbols  *linker.Symbols
 	Reporter reporter.Reporter
 	resolver fileSource
+
+	// files whose dependencies are currently being linked, to detect cycles
+	linking map[*SearchResult]struct{}
 }
 
 func newLinker(src fileSource, errs reporter.Reporter) *searchLinker {
@@ -26,6 +29,7 @@ func newLinker(src fileSource, errs reporter.Reporter) *searchLinker {
 		symbols:  &linker.Symbols{},
 		Reporter: errs,
 		resolver: src,
+		linking:  map[*SearchResult]struct{}{},
 	}
 }
 
@@ -73,6 +77,14 @@ func (ll *searchLinker) linkResult(ctx context.Context, result *SearchResult) (l
 		return result.Linked, nil
 	}
 	log.WithField(ctx, "sourceFilename", result.Summary.SourceFilename).Debug("link-new")
+
+	if _, ok := ll.linking[result]; ok {
+		// e.g. two j5s files of one package which refer to each other's
+		// types: the generated proto files would import each other
+		return nil, fmt.Errorf("circular import involving %s", result.Summary.SourceFilename)
+	}
+	ll.linking[result] = struct{}{}
+	defer delete(ll.linking, result)
 
 	linked, err := ll._linkNewResult(ctx, result)
 	if err != nil {
